@@ -79,6 +79,9 @@ def random_ops(rng, length):
             ops.append({"op": "add", "nid": nid, "kind": kind, "how": rng.choice(["add", "setitem"]), "extra": extra})
             nodes[nid] = kind
             xsdo[nid] = set(extra)
+        elif r < 0.455:
+            if nodes:      # the same node object is registered again
+                ops.append({"op": "readd", "nid": rng.choice(sorted(nodes)), "how": rng.choice(["add", "setitem"])})
         elif r < 0.47:
             rem = [n for n, k in nodes.items() if k == "remote"]
             if rem:
@@ -107,7 +110,7 @@ def random_ops(rng, length):
             else:
                 needs8 = cid in handler_ids(nodes, xsdo) or cid in (0x82, 0x582, 0x583, 0x702, 0x602, 0)
                 ops.append({"op": "listener", "id": cid, "d": [rng.randrange(256) for _ in range(8 if needs8 else rng.randrange(0, 9))],
-                            "ts": ts, "err": kind == "err", "rtr": kind == "rtr"})
+                            "ts": rng.choice([ts, ts, 0]), "err": kind == "err", "rtr": kind == "rtr"})
         elif r < 0.97:
             cid = rng.choice([0, 1, 0x7FE, 0x7FF, 0x800, 0x801, 0x1FFFFFFF, rng.randrange(0x800), rng.randrange(1 << 29)])
             remote = rng.random() < 0.3       # a remote frame carries no data
